@@ -38,6 +38,10 @@ theorem trackerData_concat (ap : Tid → σ → Blk → σ) (g : Tid → σ) (xs
     trackerData ap g (xs ++ [t]) i = t.deltas.foldl (ap i) (trackerData ap g xs i) := by
   simp [trackerData, List.foldl_append]
 
+theorem resetIfAhead_of_le {btx : List (BlockTxn Blk)} {ttx : List (TrackTxn Blk)}
+    (h : trackerRound ttx ≤ blockRound btx) : resetIfAhead btx ttx = ttx := by
+  unfold resetIfAhead; rw [if_pos h]
+
 theorem contig_concat (n : Nat) (xs : List (BlockTxn Blk)) (t : BlockTxn Blk)
     (h : Contig n xs) (ht : t.lo = n + (blocksOf xs).length + 1) : Contig n (xs ++ [t]) := by
   induction xs generalizing n with
@@ -85,12 +89,14 @@ theorem chain_len {ap : Tid → σ → Blk → σ} {g : Tid → σ} {s : Sys Blk
 theorem inv_recover {ap : Tid → σ → Blk → σ} {g : Tid → σ} {s : Sys Blk} (h : Inv ap g s) : Inv ap g (recover s) := by
   have hT : trackerRound s.ttx ≤ (blocksOf s.btx).length := by
     have := h.round_le; rw [h.lc_eq] at this; exact this
-  refine ⟨by simp [recover], rfl, h.contig, ?_, ?_, rfl, ?_, ?_, ?_⟩
-  · simpa [recover, blockRound] using hT
+  have hr : resetIfAhead s.btx s.ttx = s.ttx := resetIfAhead_of_le hT
+  refine ⟨by simp [recover], rfl, h.contig, ?_, ?_, ?_, ?_, ?_, ?_⟩
+  · simpa [recover, blockRound, hr] using hT
   · intro i
     have := h.data_eq i
     rw [h.chain_eq, List.take_append_of_le_length hT] at this
-    simpa [recover] using this
+    simpa [recover, hr] using this
+  · simp [PhaseOk, recover]
   · simp [recover]
   · intro r hr
     have := h.conf_ok r hr
@@ -413,6 +419,11 @@ theorem lag_step {ap : Tid → σ → Blk → σ} {g : Tid → σ} {s s' : Sys B
     obtain ⟨h1, h2⟩ := h j
     have hB : trackerRound (s.ttx.take j) ≤ (blocksOf s.btx).length := by
       rw [hi.lc_eq] at h1; exact h1
+    have hr : (recover s).ttx = s.ttx := by
+      show resetIfAhead s.btx s.ttx = s.ttx
+      apply resetIfAhead_of_le
+      have := hi.round_le; rw [hi.lc_eq] at this; exact this
+    rw [hr]
     refine ⟨hB, fun i => ?_⟩
     have := h2 i
     rw [hi.chain_eq, List.take_append_of_le_length hB] at this
